@@ -4,14 +4,19 @@ import Driver.Util
 Engine `local`: line protocol for C17 (`Counter`, `LocalWaker`) and C16 (`local_channel::mpsc`).
 
 ```
-case <name> counter <cap> [probe]   acquire h | drop g | avail h w | clone h | total h | dropH h | dbg h | dbgG g
+case <name> counter <cap> [probe]   acquire h | drop g | dropP g | avail h w | clone h | total h | dropH h | dbg h | dbgG g
 case <name> lw [default]      reg w | wake | take | dbg
-case <name> chan              send i x | ssend i x | clone i | dropS i | close i | poll w | recv w | recvNew w |
-                              recvDrop | rsender | dropR | sready i w | sflush i w | sclose i w | dbgS i | dbgR
+case <name> chan              send i x | ssend i x | clone i | dropS i | dropSP i | close i | poll w | recv w | recvNew w |
+                              recvDrop | rsender | dropR | dropRP | sready i w | sflush i w | sclose i w | dbgS i | dbgR
 ```
 Every answer ends in ` woke=<ids>`: the counting wakers (ids `0..3`) woken by this operation, `-` if
 none.  Operations that do not apply (unknown / dropped handle, guard, sender, waker id ≥ 4, receiver
 already dropped, wrong engine) answer `bad-op` and leave the state unchanged.
+
+`dropP g`, `dropSP i`, `dropRP` drop the guard / sender / receiver while the thread is unwinding from a
+panic that is then caught: for the model a drop is a drop.  `avail h w` with `w = 4, 5` registers an
+inline-polling waker: when a guard drop wakes it, the woken task reads `total()` and asks `available`
+from inside `wake()`; the drop then answers `dropped saw=<total>,<available> woke=<w>`.
 
 `recv w` polls the pending `recv()` future (a fresh one if none is pending), `recvNew w` drops a pending
 one first; the future has no state, so both are `Chan.Op.poll .recv w` here.  `dbg` of a `LocalWaker`
@@ -30,6 +35,9 @@ def init : State := .idle
 
 def nWakers : Nat := 4
 
+/-- ids `4, 5`: inline-polling wakers (`Counter.inlineWaker`), accepted by the counter's `avail` only -/
+def nInline : Nat := 2
+
 def wokeStr : Option WakerId → String
   | none => " woke=-"
   | some w => s!" woke={w}"
@@ -42,7 +50,8 @@ def b01 (b : Bool) : String := if b then "1" else "0"
 
 def counterObs : Counter.Obs → String
   | .guard id => s!"guard {id}" ++ wokeStr none
-  | .dropped w => "dropped" ++ wokeStr w
+  | .dropped w saw =>
+    "dropped" ++ (match saw with | some (n, b) => s!" saw={n},{b01 b}" | none => "") ++ wokeStr w
   | .avail b => s!"avail {b01 b}" ++ wokeStr none
   | .handle id => s!"handle {id}" ++ wokeStr none
   | .total n => s!"total {n}" ++ wokeStr none
@@ -87,8 +96,10 @@ def num (s : String) : Option Nat :=
 def counterOp : List String → Option Counter.Op
   | ["acquire", h] => (num h).map .acquire
   | ["drop", g] => (num g).map .drop
+  -- dropped during an unwind that is then caught: for the model a drop is a drop
+  | ["dropP", g] => (num g).map .drop
   | ["avail", h, w] => match num h, num w with
-    | some h, some w => if w < nWakers then some (.available h w) else none
+    | some h, some w => if w < nWakers + nInline then some (.available h w) else none
     | _, _ => none
   | ["clone", h] => (num h).map .clone
   | ["total", h] => (num h).map .total
@@ -132,10 +143,12 @@ def chanOp : List String → Option Chan.Op
   | ["dbgR"] => some (.quiet .debugReceiver)
   | ["clone", i] => (num i).map .clone
   | ["dropS", i] => (num i).map .dropSender
+  | ["dropSP", i] => (num i).map .dropSender
   | ["close", i] => (num i).map .close
   | ["poll", w] => recvOp w .pollNext
   | ["rsender"] => some .senderFromReceiver
   | ["dropR"] => some .dropReceiver
+  | ["dropRP"] => some .dropReceiver
   | _ => none
 
 def step (st : State) (line : String) : State × String :=
